@@ -8,11 +8,13 @@ CONSTANTS
   R = 2
   T = 4
   H = 100
-  MaxNow = 3
+  MaxNow = 2
   MaxNet = 2
-  DupBudget = 1
+  MaxRxq = 2
+  MaxGwResend = 1
+  DupBudget = 0
   LossBudget = 0
-  InjBudget = 2
+  InjBudget = 1
   AdvReq = TRUE
   GwFaultBudget = 0
   MaxEpoch = 1
